@@ -163,6 +163,8 @@ def run(ctx):
                 if isinstance(n, ast.Assign) and isinstance(n.targets[0], ast.Tuple) and len(n.targets[0].elts) == 2 and isinstance(n.value, ast.Name) and n.value.id == dn:
                     facts = true_facts(cfg_, cfg_.node_of(n))
                     facts = {re.sub(r"\b" + re.escape(opt_name) + r"\b", "OPTIONS", re.sub(r"\b" + re.escape(dn) + r"\b", "DATUM", x)) for x in facts}
+                    # the options may travel in a field of a parameter object (`ctx.options`): the field of that name is the role
+                    facts = {re.sub(r"\b(" + "|".join(re.escape(p_) for p_ in f_.params) + r")\.OPTIONS\b", "OPTIONS", x) for x in facts} if f_.params else facts
                     out = facts if out is None else (out | facts)
             return out if out is not None else set()
 
@@ -221,6 +223,25 @@ def run(ctx):
                 inside_conforming |= {id(x) for st_ in n_.body for x in ast.walk(st_)}
         if not inside_conforming:
             ctx.unrecognised("C09.R3", "write_union", wu.where(), "the conformance test of the un-hinted search was not found")
+        # ... and every branch is put to the conformance test: nothing that looks at the datum decides before it
+        datum_p0 = wu.pos_params[1]
+        derived = {datum_p0} | {n_.targets[0].id for n_ in walk_local(wu.node) if isinstance(n_, ast.Assign) and len(n_.targets) == 1 and isinstance(n_.targets[0], ast.Name) and datum_p0 in names_in(n_.value) and not any(isinstance(c, ast.Call) and isinstance(c.func, ast.Name) and c.func.id in validate_names for c in ast.walk(n_.value)) and n_.targets[0].id != datum_p0}
+        for lp_ in [x for x in walk_local(wu.node) if isinstance(x, ast.For)]:
+            in_loop = {id(x) for st_ in lp_.body for x in ast.walk(st_)}
+            for n_ in walk_local(wu.node):
+                if isinstance(n_, ast.If) and id(n_) in in_loop and any(isinstance(c, ast.Call) and isinstance(c.func, ast.Name) and c.func.id in validate_names for c in ast.walk(n_.test)):
+                    # the same decided inside the test itself (`not skip(datum, ..) and validate(..)`)
+                    in_validate = {id(x) for c in ast.walk(n_.test) if isinstance(c, ast.Call) and isinstance(c.func, ast.Name) and c.func.id in validate_names for x in ast.walk(c)}
+                    outside = {x.id for x in ast.walk(n_.test) if isinstance(x, ast.Name) and id(x) not in in_validate}
+                    if derived & outside:
+                        ctx.violation("C09.R3", f"every branch is put to the conformance test whatever the datum is: `{norm(n_.test)[:60]}`", wu.where(n_.test), f"write_union: conformance test combined with `{norm(n_.test)[:90]}`", "a branch is passed over, depending on the datum, before it was asked whether the datum conforms to it: a conforming branch can be skipped")
+                    try:
+                        vnode = cfg.node_of(n_)
+                    except Exception:
+                        continue
+                    for (t_, lab_) in cfg.guards_of(vnode):
+                        if t_.kind == "test" and id(t_.ast) in in_loop and (derived & set(names_in(t_.ast))) and not any(isinstance(c, ast.Call) and isinstance(c.func, ast.Name) and c.func.id in validate_names for c in ast.walk(t_.ast)):
+                            ctx.violation("C09.R3", f"every branch is put to the conformance test whatever the datum is: `{norm(t_.ast)[:60]}`", wu.where(t_.ast), f"write_union: conformance test under `{norm(t_.ast)[:90]}`", "a branch is passed over, depending on the datum, before it was asked whether the datum conforms to it: a conforming branch can be skipped")
         for node, (ok_, desc, text) in sorted(sel["sites"].items(), key=lambda kv: kv[0].id):
             stmt = node.ast
             guards_ = [(t.ast, lab) for (t, lab) in cfg.guards_of(node) if t.kind == "test"]
@@ -363,6 +384,31 @@ def run(ctx):
     rd = p.func("_read_py:read_data")
     opt_pos = len(rd.pos_params) - 1
     callers = [rd] + [f for k in sorted(a.readers.keys()) for f in a.readers.funcs(k)]
+    # module-level helpers of the readers that do the nested read for them (called directly or through a local that
+    # is bound to one of them): the options travel caller -> helper parameter -> read_data
+    caller_ids = {f.id for f in callers}
+    for h in rd.mod.all_funcs:
+        if h.id in caller_ids or h.cls is not None or h.node.name.startswith("__"):
+            continue
+        inner = [c for c in ast.walk(h.node) if isinstance(c, ast.Call) and isinstance(c.func, ast.Name) and p.resolve_func(h.mod, c.func) is rd]
+        if not inner:
+            continue
+        hps = {getattr(bind_args(rd, c).get(rd.pos_params[opt_pos]), "id", None) for c in inner}
+        if len(hps) != 1 or None in hps or next(iter(hps)) not in h.params:
+            continue  # not a pass-through helper: its own calls are judged where it is an entry point
+        hp = next(iter(hps))
+        for f in callers:
+            own = f.pos_params[-1] if f.pos_params else None
+            for c in ast.walk(f.node):
+                if not (isinstance(c, ast.Call) and isinstance(c.func, ast.Name)):
+                    continue
+                direct = p.resolve_func(f.mod, c.func) is h and c.func.id not in {x.id for x in ast.walk(f.node) if isinstance(x, ast.Name) and isinstance(x.ctx, ast.Store)}
+                via = any(isinstance(v, ast.Name) and v.id == h.node.name for v in assigned_values(f.node, c.func.id))
+                if not (direct or via):
+                    continue
+                got = bind_args(h, c).get(hp)
+                ok = isinstance(got, ast.Name) and got.id == own and own in f.params
+                ctx.check("C09.R10", f"{f.qualname}: nested read through {h.name} receives `{own}`", ok, f.where(c), f"{f.qualname}: {norm(c)[:110]}", "a nested value is read with the default options: with return_named_type / return_record_name set, a union inside it comes back as a bare value, which written back selects a different branch")
     seen_f = set()
     for f in callers:
         if f.id in seen_f:
